@@ -226,12 +226,13 @@ def expand_duxp(prim, annots, args) -> dict:
 
 
 def build_pxr_tree(pxr_macro, pxr_annots) -> PxrNode:
-    def parse(prim, annots, depth=0, is_root=False):
+    def parse(prim, annots, depth=0, is_root=False, leaf='P'):
+        assert prim, f'malformed pair macro `{pxr_macro}`'
         letter, prim = prim[0], prim[1:]
         if letter == 'P':
             dip_depth = depth
-            left, l_annot, prim, annots, depth = parse(prim, annots, depth)
-            right, r_annot, prim, annots, depth = parse(prim, annots, depth)
+            left, l_annot, prim, annots, depth = parse(prim, annots, depth, leaf='A')
+            right, r_annot, prim, annots, depth = parse(prim, annots, depth, leaf='I')
             return (
                 PxrNode(
                     dip_depth,
@@ -245,10 +246,13 @@ def build_pxr_tree(pxr_macro, pxr_annots) -> PxrNode:
                 depth,
             )
         else:
+            # left leaves are spelled `A`, right leaves `I`
+            assert letter == leaf, f'malformed pair macro `{pxr_macro}`'
             annot, annots = (annots[0], annots[1:]) if annots else (None, [])
             return letter, annot, prim, annots, depth + 1
 
-    root, _, _, _, _ = parse(pxr_macro, pxr_annots, is_root=True)
+    root, _, rest, _, _ = parse(pxr_macro, pxr_annots, is_root=True)
+    assert rest == 'R', f'malformed pair macro `{pxr_macro}`'
     return root
 
 
